@@ -49,9 +49,20 @@ var pinned = []string{
 	`{"driver":"run","frames":[{"js":true,"h":"rethrow+fin"},{"js":false,"e":"reflerr","x":"callable","b":"wraperr"},{"js":true,"leaf":{"kind":"overflow"}}]}`,
 	`{"driver":"callable","frames":[{"js":true,"h":"swallow"},{"js":false,"e":"method","x":"expfnerr","b":"wraperr"},{"js":true,"h":"fin"},{"js":false,"e":"reflerr1","leaf":{"kind":"overflow"},"b":"customwrap"}]}`,
 	`{"driver":"run","frames":[{"js":true,"h":"swallow+fin"},{"js":false,"e":"reflerr1","x":"run","b":"customwrap"},{"js":true,"h":"fin","leaf":{"kind":"interrupt"}}]}`,
-	// KF C14-joined-uncatchable (inbox/C14-joined-uncatchable.md): errors.Join around an uncatchable error is not recognised
+	// fixed dd0188c: errors.Join around an uncatchable error was not recognised (inbox/applied/C14-joined-uncatchable.md)
 	`{"driver":"run","frames":[{"js":true,"h":"fin"},{"js":false,"e":"reflerr","x":"callable","b":"joinerr"},{"js":true,"leaf":{"kind":"overflow"}}]}`,
 	`{"driver":"rtnew","frames":[{"js":true},{"js":false,"e":"reflerr","x":"callable","b":"joinerr"},{"js":true},{"js":false,"e":"fc","leaf":{"kind":"interrupt"}}]}`,
+	// seeded mutation C14-finally-rethrow-loses-throw-site: a non-Error value passing a try/finally keeps its throw-site stack
+	`{"driver":"run","frames":[{"js":true,"h":"fin","via":"call"},{"js":true,"leaf":{"kind":"throw","expr":"num"}}]}`,
+	// seeded mutation C14-iterclose-swallows-overflow: an uncatchable raised inside return() while an ordinary exception closes the iterator
+	`{"driver":"run","frames":[{"js":true,"h":"rethrow+fin","via":"closemap"},{"js":true,"leaf":{"kind":"overflow"}}]}`,
+	`{"driver":"callable","frames":[{"js":true,"h":"swallow","via":"closefrom"},{"js":true,"h":"fin"},{"js":false,"e":"fc","leaf":{"kind":"interrupt"}}]}`,
+	`{"driver":"run","frames":[{"js":true,"h":"swallow+fin","via":"closeforof"},{"js":true,"leaf":{"kind":"overflow"}}]}`,
+	`{"driver":"run","frames":[{"js":true,"h":"fin","via":"closedestruct"},{"js":true,"h":"rethrow","leaf":{"kind":"overflow"}}]}`,
+	// KF C14-iterate-foreign-panic (inbox/C14-iterate-foreign-panic.md): built-ins consuming an iterable swallow a foreign Go
+	// panic raised inside return(), and run return() while a foreign panic from the step unwinds
+	`{"driver":"run","frames":[{"js":true,"via":"closemap"},{"js":true},{"js":false,"e":"fc","leaf":{"kind":"foreign","expr":"str"}}]}`,
+	`{"driver":"run","frames":[{"js":true,"via":"frommap"},{"js":true},{"js":false,"e":"fc","leaf":{"kind":"foreign","expr":"int"}}]}`,
 	// regression: wrapped and joined Go errors through a wrapping intermediary; typed-nil error
 	`{"driver":"callable","frames":[{"js":true,"h":"swallow+fin"},{"js":false,"e":"method","x":"callable","b":"wraperr"},{"js":true,"h":"rethrow"},{"js":false,"e":"reflerr","leaf":{"kind":"reterr","expr":"join"}}]}`,
 	`{"driver":"callable","frames":[{"js":true,"h":"rethrow"},{"js":false,"e":"reflerr1","leaf":{"kind":"reterr","expr":"typednil"}}]}`,
@@ -105,29 +116,27 @@ func pickWS(r *core.Rng, xs []string, w []int) string { return xs[r.PickW(w)] }
 
 var handlerW = []int{34, 10, 8, 8, 8, 7, 6, 6, 6, 7}
 
-// kfJoinWitness is the pinned witness of the listed finding C14-joined-uncatchable. While it still fails, the minimal
-// syntactic neighbourhood of the finding is kept out of random generation (see excluded); once the fix is merged the
-// witness holds and the exclusion lifts by itself.
-const kfJoinWitness = `{"driver":"run","frames":[{"js":true,"h":"fin"},{"js":false,"e":"reflerr","x":"callable","b":"joinerr"},{"js":true,"leaf":{"kind":"overflow"}}]}`
+// kfIterateWitness is the pinned witness of the listed finding C14-iterate-foreign-panic. While it still fails, the
+// minimal syntactic neighbourhood of the finding is kept out of random generation (see excluded); once the fix is
+// merged the witness holds and the exclusion lifts by itself.
+const kfIterateWitness = `{"driver":"run","frames":[{"js":true,"via":"closemap"},{"js":true},{"js":false,"e":"fc","leaf":{"kind":"foreign","expr":"str"}}]}`
 
 var (
-	kfOnce sync.Once
-	kfJoin bool
+	kfOnce    sync.Once
+	kfIterate bool
 )
 
 // excluded is the syntactic neighbourhood of listed known findings, kept out of random generation:
-// C14-joined-uncatchable — chains that end in a stack overflow or an interrupt and contain a native with behaviour
-// joinerr (errors.Join around what the nested script call returned).
+// C14-iterate-foreign-panic — chains that end in a foreign Go panic and pass a built-in that consumes an iterable
+// natively (links closemap, closefrom, frommap).
 func excluded(c *c14ref.Chain) bool {
-	kfOnce.Do(func() { kfJoin = runChain(parseChain(kfJoinWitness), false).monitor != "" })
-	if !kfJoin {
-		return false
-	}
-	if lk := c.Frames[len(c.Frames)-1].Leaf.Kind; lk != "overflow" && lk != "interrupt" {
+	kfOnce.Do(func() { kfIterate = runChain(parseChain(kfIterateWitness), false).monitor != "" })
+	if !kfIterate || c.Frames[len(c.Frames)-1].Leaf.Kind != "foreign" {
 		return false
 	}
 	for i := range c.Frames {
-		if c.Frames[i].B == "joinerr" {
+		switch c.Frames[i].Via {
+		case "closemap", "closefrom", "frommap":
 			return true
 		}
 	}
@@ -154,7 +163,7 @@ func genOnce(r *core.Rng) *c14ref.Chain {
 				f.Rep = pickS(r, c14ref.JSKinds)
 			}
 			if !last && c.Frames[i+1].JS {
-				f.Via = pickWS(r, c14ref.Vias, []int{14, 6, 7, 6, 8, 8, 9, 8, 9, 7, 6, 12, 7, 6})
+				f.Via = pickWS(r, c14ref.Vias, []int{14, 6, 7, 6, 8, 8, 9, 8, 9, 7, 6, 12, 7, 6, 7, 6, 6, 6, 5})
 				if f.Via == "promise" {
 					if promise {
 						f.Via = "call"
